@@ -30,16 +30,12 @@ theorem wf_init : wfOK {} = true ∧ ∀ rk, Ranked rk {} :=
 example : wfOK (runOps Cfg.fixed {} [.alloc none 8 false false, .alloc (some 0) 9 false false,
     .reference (some 0) 1 false]) = true := by decide
 
-/-- **wf_step** (all operations except `talloc_disable_null_tracking`, hence `_partial`): one
-public operation on a well-formed state with an acyclic holder graph, with arguments inside the
-property's quantifier, gives a well-formed state with an acyclic holder graph — child lists
-and parent fields agree, TRef chunks and reference lists agree, no id dangles, no FLAG_PENDING
-survives, for any placement of references and refusing destructors.
-
-Full statement `wf_step`: the same for every `op : Op`.  Missing: `Op.nullOff`
-(`talloc_disable_null_tracking` detaches the children of the null context and frees it); it is
-covered by the correspondence run only. -/
-theorem wf_step_partial (s : State) (op : Op) (rk : Nat → Nat)
+/-- **wf_step**: one public operation — any of them, `talloc_disable_null_tracking` included —
+on a well-formed state with an acyclic holder graph, with arguments inside the property's
+quantifier, gives a well-formed state with an acyclic holder graph — child lists and parent
+fields agree, TRef chunks and reference lists agree, no id dangles, no FLAG_PENDING survives,
+for any placement of references and refusing destructors. -/
+theorem wf_step (s : State) (op : Op) (rk : Nat → Nat)
     (hwf : wfOK s = true) (hrk : Ranked rk s) (hop : OpOK rk s op)
     (hoof : (step Cfg.fixed s op).1.oof = false) (hstuck : (step Cfg.fixed s op).1.stuck = false) :
     wfOK (step Cfg.fixed s op).1 = true ∧ ∃ rk', Ranked rk' (step Cfg.fixed s op).1 := by
@@ -57,7 +53,7 @@ inductive Reach : State → Prop
 theorem wf_reachable (s : State) (h : Reach s) : wfOK s = true ∧ ∃ rk, Ranked rk s := by
   induction h with
   | init => exact ⟨wf_init.1, fun _ => 0, wf_init.2 _⟩
-  | step s op rk _ hrk hop hoof hstuck ih => exact wf_step_partial s op rk ih.1 hrk hop hoof hstuck
+  | step s op rk _ hrk hop hoof hstuck ih => exact wf_step s op rk ih.1 hrk hop hoof hstuck
 
 /-- non-vacuity: a refusing destructor under a `talloc_from_cx` root (the F15 history) is inside
 the quantifier, runs with clear flags and ends well formed -/
@@ -128,7 +124,7 @@ or attached to a live context).
 Full statement `unlink_last_releases`: additionally, every descendant without another holder
 and with an accepting destructor is released, and a descendant with another reference ends up
 child of the (first) referencing context.  Missing: the characterisation of the whole released
-set; the per-object facts follow from `wf_step_partial` (nothing dangles), `unlink_primary_keeps`
+set; the per-object facts follow from `wf_step` (nothing dangles), `unlink_primary_keeps`
 (promotion) and the correspondence run. -/
 theorem unlink_last_releases_partial (s : State) (rk : Nat → Nat) (hwf : wfOK s = true) (hrk : Ranked rk s)
     (ctx : Option Id) (o : Nat) (ob : Obj) (hob : s.get o = some ob) (hk : ob.kind = .plain)
@@ -188,26 +184,48 @@ theorem reach_logInv (s : State) (h : Reach s) : LogInv s := by
   | init => exact logInv_empty
   | step s op rk _ _ _ _ _ ih => exact step_logInv Cfg.fixed s op ih
 
-/-- **dtor_exactly_once** (`_partial`: at most once, and acceptance is final) — for EVERY history
-of public operations from the empty heap, with any arguments and in either configuration of
-the model (no well-formedness hypothesis, `talloc_disable_null_tracking` included): the
-destructor / release log (`State.log`, newest event first; the C harness prints the same log)
-is well formed in the sense of `LogWF` (UsualProofs/C01/LogInv.lean):
-* an accepting destructor call of `x` is logged only if no accepting call and no release of `x`
-  has happened before — an accepted destructor never runs again (the FLAG_PENDING guard answers
-  a re-entrant `talloc_free(self)`), also when the object has several references or is reached
-  again through `free_children`;
-* a refusing call of `x` likewise: no destructor call after acceptance or release;
-* `x` is released only if it has not been released before — no double release;
-hence at most one accepted call and at most one release per object, and a released id is dead.
+/-- **dtor_exactly_once** — for EVERY history of public operations from the empty heap, with any
+arguments and in either configuration of the model (no well-formedness hypothesis,
+`talloc_disable_null_tracking` included), and any further operation `op`:
 
-Full statement `dtor_exactly_once`: additionally, an object that is released while a destructor
-is set has seen exactly one accepting call of it, in the same `talloc_free`.  The half proved
-below as `accepted_is_released` is "accepted ⇒ released by the same operation"; the missing
-half ("released with a destructor set ⇒ the destructor was called") needs the history of the
-destructor slot, which the model's log does not record; the correspondence run compares the
-destructor logs of model and library after every operation. -/
-theorem dtor_exactly_once_partial (cfg : Cfg) (ops : List Op) (x : Id) :
+(a) the destructor / release log (`State.log`, newest event first; the C harness prints the same
+log) is well formed in the sense of `LogWF` (UsualProofs/C01/LogInv.lean): an accepting
+destructor call of `x` is logged only if no accepting call and no release of `x` has happened
+before (an accepted destructor never runs again — the FLAG_PENDING guard answers a re-entrant
+`talloc_free(self)` — also with several references or when reached again through
+`free_children`); a refusing call likewise; `x` is released only if not released before.  Hence
+at most one accepted call and at most one release per object, and a released id is dead.
+
+(b) an object that is live, not being freed and has a destructor set before `op`, and is gone
+after `op`, had no accepting destructor call before `op`, has exactly one in the log after
+`op` — so the destructor ran (accepted) exactly once, during the operation that released the
+object — and its release is in the log.  (`xb.pending = false` holds for every object between
+operations, see `wf_reachable`.) -/
+theorem dtor_exactly_once (cfg : Cfg) (ops : List Op) (op : Op) (x : Id) (xb : Obj) :
+    LogWF (step cfg (runOps cfg {} ops) op).1.log ∧
+    (step cfg (runOps cfg {} ops) op).1.log.count (Event.dtorOk x) ≤ 1 ∧
+    (step cfg (runOps cfg {} ops) op).1.log.count (Event.release x) ≤ 1 ∧
+    (Event.release x ∈ (step cfg (runOps cfg {} ops) op).1.log → (step cfg (runOps cfg {} ops) op).1.get x = none) ∧
+    ((runOps cfg {} ops).get x = some xb → xb.dtor ≠ .none → xb.pending = false →
+      (step cfg (runOps cfg {} ops) op).1.get x = none →
+      Event.dtorOk x ∉ (runOps cfg {} ops).log ∧
+      (step cfg (runOps cfg {} ops) op).1.log.count (Event.dtorOk x) = 1 ∧
+      Event.release x ∈ (step cfg (runOps cfg {} ops) op).1.log) := by
+  have i0 := runOps_logInv cfg ops {} logInv_empty
+  have i := step_logInv cfg _ op i0
+  refine ⟨i.wf, (i.wf.counts x).2, (i.wf.counts x).1, i.relDead x, ?_⟩
+  intro hx hd hp hgone
+  have hran := step_released_ran cfg _ op x xb hx hd hp hgone
+  refine ⟨(i0.fresh hx hp).1, ?_, ?_⟩
+  · have h1 := (i.wf.counts x).2
+    have h2 : 0 < (step cfg (runOps cfg {} ops) op).1.log.count (Event.dtorOk x) := List.count_pos_iff.2 hran
+    omega
+  · rcases i.okRel x hran with h | ⟨xb', h1, -⟩
+    · exact h
+    · rw [hgone] at h1; cases h1
+
+/-- the log of every history (the statement of (a) for the history itself) -/
+theorem dtor_log_wellformed (cfg : Cfg) (ops : List Op) (x : Id) :
     LogWF (runOps cfg {} ops).log ∧
     (runOps cfg {} ops).log.count (Event.dtorOk x) ≤ 1 ∧
     (runOps cfg {} ops).log.count (Event.release x) ≤ 1 ∧
